@@ -239,16 +239,21 @@ pub fn gen_commit(rng: &mut Rng, plan: &mut Plan, n: u64, mutate: bool, tune: bo
 /// transaction, the holder's commitment, the counterparty's commitment).
 pub struct ChainSim {
     pub blocks: Vec<u64>,
+    /// height at which the channel was set up (3 seed headers + the blocks between stub creation and setup)
+    pub base: u64,
 }
 
 impl ChainSim {
     pub fn new() -> ChainSim {
-        ChainSim { blocks: Vec::new() }
+        ChainSim { blocks: Vec::new(), base: 3 }
+    }
+    pub fn with_gap(gap: u64) -> ChainSim {
+        ChainSim { blocks: Vec::new(), base: 3 + gap }
     }
     pub fn state(&self) -> (u64, u64, u64) {
         let n = self.blocks.len() as u64;
         let depth = |ks: &[u64]| self.blocks.iter().position(|b| ks.contains(b)).map(|i| n - i as u64).unwrap_or(0);
-        (3 + n, depth(&[1]), depth(&[2, 3, 4, 5, 6]))
+        (self.base + n, depth(&[1]), depth(&[2, 3, 4, 5, 6, 7]))
     }
     pub fn good(&self) -> bool {
         let (_, fd, cd) = self.state();
@@ -257,7 +262,7 @@ impl ChainSim {
     pub fn can(&self, kind: u64) -> bool {
         match kind {
             1 => !self.blocks.contains(&1),
-            2..=6 => self.blocks.contains(&1) && !self.blocks.iter().any(|b| *b >= 2),
+            2..=7 => self.blocks.contains(&1) && !self.blocks.iter().any(|b| *b >= 2),
             _ => true,
         }
     }
@@ -271,6 +276,20 @@ impl ChainSim {
         let (h, fd, cd) = self.state();
         Some(format!("unblk {} {} {}", h, fd, cd))
     }
+}
+
+/// with use_chain_state: sometimes move the first HTLC's expiry onto / just outside the edges of the window
+/// `[height + min_delay, height + max_delay]` of the REAL current height; returns whether all expiries are inside
+fn expiry_edge(rng: &mut Rng, pol: &Pol, height: u64, cm: &mut Commit) -> bool {
+    if !pol.use_chain {
+        return true;
+    }
+    let (lo, hi) = (height + pol.min_delay, height + pol.max_delay);
+    if rng.chance(1, 3) {
+        let e = pick_u64(rng, &[lo, lo.saturating_sub(1), lo.saturating_sub(2), lo.saturating_sub(5), height, hi, hi + 1]);
+        if let Some(h) = cm.offered.first_mut() { h.1 = e } else if let Some(h) = cm.received.first_mut() { h.1 = e }
+    }
+    !pol.errs(BIT_CLTV) || cm.offered.iter().chain(cm.received.iter()).all(|(_, e)| *e >= lo && *e <= hi && *e < 500_000_000)
 }
 
 /// On-chain-validator scenarios: valid contents, so that acceptance depends on the chain state (funding
@@ -289,9 +308,13 @@ pub fn gen_onchain_case(rng: &mut Rng) -> Vec<String> {
         outbound, value: 3_000_000 + rng.below(3) * 1_000_000, push: 0, holder_delay: 6, cp_delay: 7,
         ctype: pick_u64(rng, &[1, 3]), upfront: 0, up_spend: false, up_allow: false,
     };
-    let mut plan = Plan { pol: pol.clone(), setup: setup.clone(), height: 1000 };
-    let mut ops = vec![pol.line(), setup.line()];
-    let mut sim = ChainSim::new();
+    // blocks that arrive between the creation of the channel stub and setup_channel: the monitor must start at the
+    // tracker's height at setup time; with use_chain_state the HTLC expiry window hangs on that height
+    let gap = pick_u64(rng, &[0, 0, 0, 1, 2, 5, 9]);
+    pol.use_chain = rng.chance(1, 3);
+    let mut plan = Plan { pol: pol.clone(), setup: setup.clone(), height: 3 + gap };
+    let mut ops = vec![pol.line(), format!("{} {} {}", setup.line(), if rng.chance(1, 4) { 1 + rng.below(2) } else { 0 }, gap)];
+    let mut sim = ChainSim::with_gap(gap);
     // expected counters and the contents last accepted per number
     let (mut nh, mut nc, mut nr) = (0u64, 0u64, 0u64);
     let mut pending: Option<Commit> = None;
@@ -300,7 +323,8 @@ pub fn gen_onchain_case(rng: &mut Rng) -> Vec<String> {
     // what spends the funding outpoint: a plain transaction (reads as a mutual close) or a real commitment
     // transaction -- the holder's current (3) or validated-but-pending next (6) one, the counterparty's current (4)
     // or previous, not yet revoked (5) one -- in every filter mode (F-C05-M1 is fixed in /repo, e2a60ca)
-    let spend_kinds: &[u64] = &[2, 3, 4, 5, 6];
+    // (7 = a cooperative close with a non-zero lock time, as the newer closing protocol or any counterparty may craft it)
+    let spend_kinds: &[u64] = &[2, 3, 4, 5, 6, 7, 7];
     let gate_ok = |sim: &ChainSim, n: u64, pol: &Pol| n == 0 || sim.good() || !pol.errs(BIT_ACTIVE_UTXO);
     // a scripted prefix that puts one side ahead of the other, then the free walk
     let mut script: Vec<&str> = match rng.below(6) {
@@ -343,9 +367,11 @@ pub fn gen_onchain_case(rng: &mut Rng) -> Vec<String> {
             }
             "cp" => {
                 let n = nc;
-                let cm = gen_commit(rng, &mut plan, n, false, false);
+                plan.height = sim.state().0;
+                let mut cm = gen_commit(rng, &mut plan, n, false, false);
+                let in_window = expiry_edge(rng, &pol, sim.state().0, &mut cm);
                 ops.push(cm.cp_line(2 * rng.chance(1, 3) as u64));
-                if n <= nr + 1 && gate_ok(&sim, n, &pol) { nc += 1; cur_cp = Some(cm) }
+                if n <= nr + 1 && gate_ok(&sim, n, &pol) && in_window { nc += 1; cur_cp = Some(cm) }
             }
             "cpretry" => if let Some(cm) = &cur_cp {
                 let mut cm2 = cm.clone();
@@ -354,9 +380,11 @@ pub fn gen_onchain_case(rng: &mut Rng) -> Vec<String> {
             },
             "hold" => {
                 let n = nh;
-                let cm = gen_commit(rng, &mut plan, n, false, false);
+                plan.height = sim.state().0;
+                let mut cm = gen_commit(rng, &mut plan, n, false, false);
+                let in_window = expiry_edge(rng, &pol, sim.state().0, &mut cm);
                 ops.push(cm.hold_line_x(true, rng.chance(1, 3)));
-                if gate_ok(&sim, n, &pol) { pending = Some(cm) }
+                if gate_ok(&sim, n, &pol) && in_window { pending = Some(cm) }
             }
             "holdagain" => if let Some(cm) = &pending { ops.push(cm.hold_line(true)) },
             "holdretry" => if let Some(cm) = &cur_hold {
